@@ -106,16 +106,18 @@ def programs(qc, rng, tier):
                 njoins += 1
             steps = {
                 # (selecting table.* removes that table's other select items, so a source gets either marked columns or a star)
-                "select": lambda q: q.select(*[pg.col(s) for s in srcs if not star_src(s, srcs)], fn.Sum(pg.col(srcs[-1])).as_("agg"),
+                "select": lambda q: q.select(*[pg.col(s) for s in srcs if not star_src(s, srcs)],
+                                             *[pg.col(s, via_str=True) for s in srcs[:1] if not star_src(s, srcs)], fn.Sum(pg.col(srcs[-1])).as_("agg"),
                                              *[pg.star(s) for s in srcs if star_src(s, srcs)],
                                              *[fn.Count(pg.star(s)) for s in srcs[:1] if isinstance(s, Q.Table) and s.alias]),
                 # columns inside a window: PARTITION BY, ORDER BY with and without a direction, FILTER
                 "window": lambda q: q.select(an.Rank().over(pg.col(srcs[0])).orderby(pg.col(srcs[-1]), order=P.enums.Order.desc).orderby(pg.col(srcs[0])),
                                              fn.Sum(pg.col(srcs[-1])).filter(pg.col(srcs[0]) > 0)),
                 "where": lambda q: q.where((pg.col(srcs[0]) == 1) & (pg.col(srcs[-1]) > 2)),
-                "groupby": lambda q: q.groupby(pg.col(srcs[0]), fn.Lower(pg.col(srcs[-1]))),
+                # (a column given by name - a str - is a column of the first FROM source)
+                "groupby": lambda q: q.groupby(pg.col(srcs[0]), fn.Lower(pg.col(srcs[-1])), pg.col(srcs[0], via_str=True)),
                 "having": lambda q: q.having(fn.Max(pg.col(srcs[0])) > 3),
-                "orderby": lambda q: q.orderby(pg.col(srcs[-1]), pg.col(srcs[0])),
+                "orderby": lambda q: q.orderby(pg.col(srcs[-1]), pg.col(srcs[0]), pg.col(srcs[0], via_str=True)),
             }
             for k in order:
                 q = steps[k](q)
